@@ -1981,6 +1981,10 @@ class Tag(PageElement):
             # object contains another. Insert the BeautifulSoup's children and
             # return them.
             return self.insert(position, *list(new_child.contents))
+        if position < 0:
+            # A negative position counts from the end of the list of
+            # children, the way it does for list.insert().
+            position = max(0, len(self.contents) + position)
         position = min(position, len(self.contents))
         if hasattr(new_child, "parent") and new_child.parent is not None:
             # We're 'inserting' an element that's already one
